@@ -511,6 +511,11 @@ class Core(composites.Composite):
 
         spatialLocator = spatialLocator or a.spatialLocator
 
+        if spatialLocator is not None:
+            # transfer spatialLocator to Core one (first: locators of different grids never
+            # compare equal, so only a locator of the core grid can be looked up below)
+            spatialLocator = self.spatialGrid[tuple(spatialLocator.indices)]
+
         # refuse before anything is changed, so that a refused add leaves the core as it was
         if spatialLocator is not None and spatialLocator in self.childrenByLocator:
             raise ValueError(
@@ -521,8 +526,6 @@ class Core(composites.Composite):
             )
 
         if spatialLocator is not None:
-            # transfer spatialLocator to Core one
-            spatialLocator = self.spatialGrid[tuple(spatialLocator.indices)]
             if not self.spatialGrid.locatorInDomain(
                 spatialLocator, symmetryOverlap=True
             ):
